@@ -139,7 +139,8 @@ def processRewrite (rec : J) : Verdict := Id.run do
       let ro : RealOut := { cfg := cfg, pfx := pfx, inp := p, out := outReal, status := realStatus,
                             content := (rec.getD "content").strD,
                             metricsCount := (rm.getD "instrumentedPropagation").natD,
-                            metricsDebug := realDebug rm }
+                            metricsDebug := realDebug rm,
+                            file := (rec.getD "file").strD, metricsFile := (rm.getD "file").str? }
       if realStatus == "Modified" || realStatus == "NotModified" || realStatus == "Cancelled" then
         for f in allChecks ro do
           v := v.addCheck (f.prop ++ ":" ++ f.cls) (jstr f.detail)
@@ -328,6 +329,25 @@ def processChain (rec : J) : Verdict := Id.run do
           | none =>
             v := v.addCheck "C10:chained-token-without-two-step-counterpart" (rtokJson t)
             break
+        -- and the other way round (`emitted_chain_lookup`): wherever the rewrite map has a token that the original
+        -- map resolves, the emitted map answers with that original position (no mapping may be lost on the way)
+        for r in rw.tokens do
+          match r.src with
+          | some (_, l, c) =>
+            match rtokLookup orig l c with
+            | some o =>
+              if o.src.isSome then
+                match rtokLookup fin.tokens r.genLine r.genCol with
+                | some got =>
+                  if got.src != o.src then
+                    v := v.addCheck "C10:position-of-a-rewrite-token-resolves-differently-in-the-emitted-map"
+                      (.obj [("at", .arr [jnat r.genLine, jnat r.genCol]), ("emitted", rtokJson got), ("two_step", rtokJson o)])
+                    break
+                | none =>
+                  v := v.addCheck "C10:position-of-a-rewrite-token-has-no-mapping-in-the-emitted-map" (.arr [jnat r.genLine, jnat r.genCol])
+                  break
+            | none => pure ()
+          | none => pure ()
       else
         if finalMap != mapStr then
           v := v.addCheck "C10:plain-rewrite-map-not-emitted-when-no-chaining-applies" (jstr "")
